@@ -5,7 +5,9 @@
 //!   probe <seed> <entries>                       print the set-up flag sets the kernel accepts
 //!   twin  <seed> <batches> <flagbits> <entries>  batches on ONE ring, twin execution
 //!   cycle <seed> <cycles> <flagbits,...>         set-up + use + drop cycles with markers (run under sysmon)
+//!   sqpoll <seed> <rounds> <flagbits> <entries>  SQPOLL wake-up protocol: idle poller, overflowed CQ, submit, require completion
 mod gen;
+mod kview;
 mod ops;
 mod sys;
 mod world;
@@ -75,6 +77,7 @@ struct Ring {
     sqpoll: bool,
     info: RingInfo,
     _bufs: Vec<Vec<u8>>,
+    kview: Option<kview::KView>,
 }
 
 fn setup_ring(bits: u32, entries: u32, w: &World) -> Result<Ring, String> {
@@ -87,7 +90,8 @@ fn setup_ring(bits: u32, entries: u32, w: &World) -> Result<Ring, String> {
     }
     let files: Vec<Fd> = (0..NPERM).map(|i| Fd::try_new(w.fds[w.perm[i]].fd[0]).unwrap()).collect();
     io_uring_register_files(u.fd, &files).map_err(|e| format!("register files: {e}"))?;
-    Ok(Ring { u, bits, sq_entries: entries.next_power_of_two(), sqpoll: bits & B_SQPOLL != 0, info, _bufs: bufs })
+    let kview = if bits & B_SQPOLL != 0 { kview::KView::new(u.fd.value(), bits, entries, 2).ok() } else { None };
+    Ok(Ring { u, bits, sq_entries: entries.next_power_of_two(), sqpoll: bits & B_SQPOLL != 0, info, _bufs: bufs, kview })
 }
 
 fn enter(fd: Fd, to_submit: u32, min_complete: u32, flags: IoUringEnterFlags) -> Result<usize, i64> {
@@ -226,7 +230,12 @@ fn run_batch(ring: &mut Ring, w: &mut World, b: &mut Batch, serial: &mut u64, sa
     }
     // ---- submit
     if ring.sqpoll {
-        if ring.u.needs_wakeup() {
+        // the documented protocol, deciding with the wrapper's needs_wakeup() only
+        let (wake, refuted) = wakeup_decision(&ring.u, ring.kview.as_ref());
+        if let Some(word) = refuted {
+            viol(st, SIG_WAKEUP, format!("{{\"kernel_sq_flags\":{word},\"needs_wakeup\":false,\"ring\":{ring_desc},\"where\":\"twin batch {}\"}}", st.batches));
+        }
+        if wake || refuted.is_some() {
             st.wakeups += 1;
             if let Err(e) = enter(ring.u.fd, 0, 0, IoUringEnterFlags::IORING_ENTER_SQ_WAKEUP) {
                 return Err(Fatal::Inconclusive(format!("io_uring_enter(SQ_WAKEUP) failed {e}")));
@@ -865,6 +874,267 @@ fn twin(seed: u64, batches: u64, bits: u32, entries: u32) {
     );
 }
 
+
+const SIG_WAKEUP: &str = "C18/sqpoll/needs_wakeup-false-while-need-wakeup-bit-set";
+
+/// The wrapper's answer, sandwiched between two independent reads of the kernel's SQ flags word.
+/// The poller clears IORING_SQ_NEED_WAKEUP only when somebody wakes it; if the bit is set before and after
+/// the call, it was set during the call, and an answer `false` is the refuting event (returns the word).
+fn wakeup_decision(u: &IoUring, kv: Option<&kview::KView>) -> (bool, Option<u32>) {
+    let k1 = kv.map(kview::KView::word);
+    let w = u.needs_wakeup();
+    let k2 = kv.map(kview::KView::word);
+    match (k1, k2) {
+        (Some(a), Some(b)) if a & kview::SQ_NEED_WAKEUP != 0 && b & kview::SQ_NEED_WAKEUP != 0 && !w => (w, Some(a & b)),
+        _ => (w, None),
+    }
+}
+
+/// SQPOLL wake-up protocol workload. The submit path is the documented one (flush; if needs_wakeup() then
+/// io_uring_enter(SQ_WAKEUP)) and uses only the wrapper to decide. Phases per round: idle poller; submit;
+/// overflow the completion queue (more completions than CQ entries left unreaped); idle poller again;
+/// submit; every operation must produce exactly one completion.
+#[allow(clippy::too_many_lines)]
+fn sqpoll(seed: u64, rounds: u64, bits: u32, entries: u32) {
+    let _ = std::env::set_current_dir("/");
+    let mut r = Rng::new(seed ^ u64::from(bits) << 8);
+    let desc = format!("{{\"entries\":{entries},\"flags\":{}}}", vh::js(&flag_names(bits)));
+    let mut u = match vh::catch(|| setup_io_uring(entries, pflags(bits), 0, 2)) {
+        Ok(Ok(u)) => u,
+        Ok(Err(_)) => {
+            vh::count("sqpoll_flag_sets_skipped_rejected_by_kernel", 1);
+            vh::distinct(&format!("sqpoll-protocol/skipped/{}", flag_names(bits)));
+            return;
+        }
+        Err(p) => {
+            vh::viol("C18/setup/panic", &format!("{{\"panic\":{}}}", vh::js(&p)));
+            return;
+        }
+    };
+    let kv = match kview::KView::new(u.fd.value(), bits, entries, 2) {
+        Ok(k) => k,
+        Err(e) => {
+            vh::inconclusive(&format!("sqpoll protocol: no independent view of the ring: {e}"));
+            return;
+        }
+    };
+    let path = rusl::unix_lit!("/");
+    let mut stx = Box::new(ops::StxBuf([0; 256]));
+    let ts0 = rusl::platform::TimeSpec::new(0, 0);
+    let mut serial = 1u64;
+    let mut evals = 0u64;
+    let mut refuted = 0u64;
+    let mut nviol = 0u32;
+    let (mut idle_seen, mut overflow_seen, mut both_seen, mut submitted, mut wakeups) = (0u64, 0u64, 0u64, 0u64, 0u64);
+    // outstanding: user_data -> (wrapper said no wake-up although the kernel's bit was set)
+    let mut outstanding: BTreeMap<u64, bool> = BTreeMap::new();
+
+    // wait (bounded) until the poller sleeps: the kernel's word shows NEED_WAKEUP
+    let wait_idle = |kv: &kview::KView| -> bool {
+        let t0 = std::time::Instant::now();
+        while t0.elapsed().as_millis() < 1500 {
+            if kv.word() & kview::SQ_NEED_WAKEUP != 0 {
+                return true;
+            }
+            std::thread::sleep(std::time::Duration::from_millis(1));
+        }
+        false
+    };
+    macro_rules! submit_one {
+        () => {{
+            let ud = serial;
+            serial += 1;
+            let t0 = std::time::Instant::now();
+            let mut slot = u.get_next_sqe_slot();
+            while slot.is_none() && t0.elapsed().as_secs() < 3 {
+                std::thread::yield_now();
+                slot = u.get_next_sqe_slot();
+            }
+            match slot {
+                None => None,
+                Some(p) => {
+                    unsafe {
+                        if bits & B_SQE128 != 0 {
+                            core::ptr::write_bytes(p.cast::<u8>(), 0, 128);
+                        }
+                        if r.chance(1, 3) {
+                            p.write(rusl::platform::IoUringSubmissionQueueEntry::new_timeout(&ts0, true, None, ud, rusl::platform::IoUringSQEFlags::empty()));
+                        } else {
+                            p.write(rusl::platform::IoUringSubmissionQueueEntry::new_statx(
+                                None,
+                                path,
+                                rusl::platform::StatxFlags::empty(),
+                                rusl::platform::StatxMask::STATX_SIZE,
+                                stx.0.as_mut_ptr().cast(),
+                                ud,
+                                rusl::platform::IoUringSQEFlags::empty(),
+                            ));
+                        }
+                    }
+                    u.flush_submission_queue();
+                    let (wake, refut) = wakeup_decision(&u, Some(&kv));
+                    evals += 1;
+                    vh::distinct(&format!("sqpoll-protocol/{}/kernel-word-{}/wrapper-{}", flag_class(bits), kv.word() & 7, wake));
+                    if let Some(word) = refut {
+                        refuted += 1;
+                        nviol += 1;
+                        if nviol <= 2 {
+                            vh::viol(SIG_WAKEUP, &format!("{{\"kernel_sq_flags\":{word},\"needs_wakeup\":false,\"ring\":{desc},\"cq_entries\":{},\"unreaped\":{}}}", kv.cq_entries, outstanding.len()));
+                        }
+                    }
+                    if wake {
+                        wakeups += 1;
+                        let _ = enter(u.fd, 0, 0, IoUringEnterFlags::IORING_ENTER_SQ_WAKEUP);
+                    }
+                    submitted += 1;
+                    outstanding.insert(ud, refut.is_some());
+                    Some(ud)
+                }
+            }
+        }};
+    }
+    // reap what is there without ever blocking and without waking the poller; flushes overflowed completions
+    macro_rules! reap {
+        () => {{
+            let _ = enter(u.fd, 0, 0, IoUringEnterFlags::IORING_ENTER_GETEVENTS);
+            let mut bad = None;
+            while let Some(c) = u.get_next_cqe() {
+                let ud = c.0.user_data;
+                if outstanding.remove(&ud).is_none() {
+                    bad = Some(ud);
+                }
+            }
+            if let Some(ud) = bad {
+                vh::viol(if ud < serial { "C18/completion/duplicate" } else { "C18/completion/unknown-user-data" }, &format!("{{\"user_data\":{ud},\"ring\":{desc},\"where\":\"sqpoll protocol\"}}"));
+            }
+        }};
+    }
+    // everything outstanding must complete; a missing completion is reported only with the certificate
+    macro_rules! settle {
+        ($what:expr) => {{
+            // with a refuted wake-up decision on record a short wait is enough (the certificate is checked below);
+            // without one only a generous watchdog applies (a starved poller thread is not a finding)
+            let t0 = std::time::Instant::now();
+            let limit = if outstanding.values().any(|c| *c) { 1500 } else { 20_000 };
+            while !outstanding.is_empty() && t0.elapsed().as_millis() < limit {
+                reap!();
+                if !outstanding.is_empty() {
+                    std::thread::sleep(std::time::Duration::from_micros(300));
+                }
+            }
+            evals += 1;
+            let mut ok = true;
+            if !outstanding.is_empty() {
+                ok = false;
+                let certified = outstanding.values().any(|c| *c) && kv.sq_pending() > 0 && kv.word() & kview::SQ_NEED_WAKEUP != 0;
+                if certified {
+                    vh::viol(
+                        "C18/completion/missing",
+                        &format!(
+                            "{{\"phase\":{},\"never_completed\":{},\"certificate\":\"entries published but not consumed ({} pending), poller asleep (kernel SQ flags {}), needs_wakeup() answered false at submission\",\"ring\":{desc}}}",
+                            vh::js($what),
+                            outstanding.len(),
+                            kv.sq_pending(),
+                            kv.word()
+                        ),
+                    );
+                } else {
+                    vh::inconclusive(&format!("sqpoll protocol ({}): {} completions outstanding after 20 s without a certificate (kernel SQ flags {}, pending {})", $what, outstanding.len(), kv.word(), kv.sq_pending()));
+                }
+                // recover: wake the poller unconditionally and drain
+                let _ = enter(u.fd, 0, 0, IoUringEnterFlags::IORING_ENTER_SQ_WAKEUP);
+                let t1 = std::time::Instant::now();
+                while !outstanding.is_empty() && t1.elapsed().as_secs() < 5 {
+                    reap!();
+                    std::thread::sleep(std::time::Duration::from_micros(300));
+                }
+            }
+            ok && outstanding.is_empty()
+        }};
+    }
+    for round in 0..rounds {
+        // (a) idle poller, nothing unreaped
+        if wait_idle(&kv) {
+            idle_seen += 1;
+        }
+        if submit_one!().is_none() {
+            vh::inconclusive("sqpoll protocol: no submission slot");
+            break;
+        }
+        if !settle!("idle poller") && nviol == 0 {
+            break;
+        }
+        // (b) overflow the completion queue: leave more completions unreaped than it has entries
+        let extra = r.range(1, 3) as u32;
+        let want = kv.cq_entries + extra;
+        let mut failed = false;
+        for i in 0..want {
+            // now and then let the poller fall asleep in the middle of the burst as well
+            if i > 0 && r.chance(1, 4) {
+                wait_idle(&kv);
+            }
+            if submit_one!().is_none() {
+                failed = true;
+                break;
+            }
+            // consumed by the kernel? (bounded; with a refuted wake-up decision it will not be)
+            let t0 = std::time::Instant::now();
+            while kv.sq_pending() > 0 && t0.elapsed().as_millis() < 300 {
+                std::thread::yield_now();
+            }
+            if kv.sq_pending() > 0 {
+                break;
+            }
+        }
+        if failed {
+            vh::inconclusive("sqpoll protocol: no submission slot during the burst");
+            break;
+        }
+        // give the completions time to be posted (bounded), then look at the kernel's word
+        let t0 = std::time::Instant::now();
+        while kv.word() & kview::SQ_CQ_OVERFLOW == 0 && t0.elapsed().as_millis() < 200 {
+            std::thread::yield_now();
+        }
+        let over = kv.word() & kview::SQ_CQ_OVERFLOW != 0;
+        if over {
+            overflow_seen += 1;
+        }
+        // (c) the poller goes to sleep with the overflow still standing, then the next submission
+        let slept = wait_idle(&kv);
+        if slept && kv.word() & kview::SQ_CQ_OVERFLOW != 0 {
+            both_seen += 1;
+        }
+        if round % 2 == 1 {
+            // variant: poller still awake (or just woken) while the overflow stands
+            let _ = enter(u.fd, 0, 0, IoUringEnterFlags::IORING_ENTER_SQ_WAKEUP);
+        }
+        if submit_one!().is_none() && !outstanding.values().any(|c| *c) {
+            vh::inconclusive("sqpoll protocol: no submission slot after the overflow");
+            break;
+        }
+        // (without a free slot because an earlier entry was never consumed, settle reports that entry with its certificate)
+        if !settle!("overflowed completion queue, sleeping poller") && nviol == 0 {
+            break;
+        }
+    }
+    drop(kv);
+    drop(u);
+    vh::eval(evals);
+    vh::count("sqpoll_protocol_rings", 1);
+    vh::count("sqpoll_protocol_submissions", submitted);
+    vh::count("sqpoll_protocol_wakeups_issued", wakeups);
+    vh::count("sqpoll_protocol_poller_seen_asleep", idle_seen);
+    vh::count("sqpoll_protocol_cq_overflow_seen", overflow_seen);
+    vh::count("sqpoll_protocol_asleep_with_overflow_standing", both_seen);
+    vh::count("sqpoll_protocol_wakeup_decisions_refuted", refuted);
+    vh::sample(
+        &format!(
+            "{{\"sqpoll_protocol\":{desc},\"rounds\":{rounds},\"submissions\":{submitted},\"poller_asleep_with_cq_overflow\":{both_seen},\"wakeups_issued\":{wakeups},\"refuted_decisions\":{refuted}}}"
+        ),
+        2,
+    );
+}
+
 fn probe(entries: u32) {
     let mut acc = Vec::new();
     let mut rej = 0u32;
@@ -986,6 +1256,11 @@ fn main() {
             let bits = a.rest.first().and_then(|s| u32::from_str_radix(s, 16).ok()).unwrap_or(0);
             let entries = a.rest.get(1).and_then(|s| s.parse().ok()).unwrap_or(8);
             twin(a.seed, a.budget, bits, entries);
+        }
+        "sqpoll" => {
+            let bits = a.rest.first().and_then(|s| u32::from_str_radix(s, 16).ok()).unwrap_or(2);
+            let entries = a.rest.get(1).and_then(|s| s.parse().ok()).unwrap_or(1);
+            sqpoll(a.seed, a.budget, bits, entries);
         }
         "cycle" => {
             let sets: Vec<u32> = a.rest.first().map_or(vec![0], |s| s.split(',').filter_map(|x| u32::from_str_radix(x, 16).ok()).collect());
